@@ -130,6 +130,41 @@ pub fn shadow_zoo(ctx: &Ctx, rng: &mut impl RngCore, nrand: usize) -> Vec<SE> {
                 }
             }
         }
+        // ... each coordinate equal to (or the negative of) an intermediate of the encoder that scales differently
+        // from it: u2 = |v u1| and the encoding s itself (both invariant), u1 = (X+T)(X-T) (quadratic). A fused or
+        // factored expression over a coordinate and an intermediate meets its "operands coincide" case here.
+        for (j, &ix) in idx.iter().enumerate().take(3) {
+            let m0 = picks[ix];
+            let m = if j % 2 == 1 { MEl { pt: c.torque(&m0.pt), class: m0.class } } else { MEl { pt: m0.pt.clone(), class: m0.class } };
+            let f = &c.f;
+            let (x, y) = (&m.pt.x, &m.pt.y);
+            let t = f.mul(x, y);
+            let u1 = f.mul(&f.sq(x), &f.sub(&b(1), &f.sq(y)));
+            let arg = f.mul(&f.mul(&u1, &f.sub(&c.a, &c.d)), &f.sq(x));
+            let Some(v) = f.inv(&arg).and_then(|ai| f.sqrt(&ai)) else { continue };
+            let u2 = f.abs(&f.mul(&v, &u1));
+            let Some(enc_s) = c.encode_spec_fe(&m.pt) else { continue };
+            let u1i = f.inv(&u1);
+            for coord in [x.clone(), y.clone(), b(1), t.clone()] {
+                let Some(ci) = f.inv(&coord) else { continue };
+                let mut lams: Vec<crate::model::B> = Vec::new();
+                for tg in [u2.clone(), f.neg(&u2), enc_s.clone(), f.neg(&enc_s)] {
+                    lams.push(f.mul(&tg, &ci));
+                }
+                if let Some(u1i) = &u1i {
+                    lams.push(f.mul(&coord, u1i));
+                    lams.push(f.neg(&f.mul(&coord, u1i)));
+                }
+                for l in lams {
+                    if l == b(0) || l == b(1) {
+                        continue;
+                    }
+                    let mut s = present(c, &m, Some(&l));
+                    s.class = "rescaled-coordinate-equals-intermediate";
+                    out.push(s);
+                }
+            }
+        }
         // ... and the argument of the encoder's inverse square root equal to such a constant (a fourth root
         // of target/argument exists for one element in four: walk the zoo until one is found)
         let targets: Vec<crate::model::B> = crate::eng::intermediate_targets(&c.f.p).into_iter().take(8).collect();
